@@ -11,6 +11,7 @@ import (
 	"fmt"
 	"os"
 	"path/filepath"
+	"runtime/pprof"
 	. "verif/harness/hlib"
 )
 
@@ -96,6 +97,17 @@ type wobs struct {
 func init() {
 	Register("write", func(e *Env) error {
 		dump := e.Args["dump"] == "1"
+		if pf := e.Args["cpuprofile"]; pf != "" { // development aid
+			f, err := os.Create(pf)
+			if err != nil {
+				return err
+			}
+			defer f.Close()
+			if err := pprof.StartCPUProfile(f); err != nil {
+				return err
+			}
+			defer pprof.StopCPUProfile()
+		}
 		return MapCases(e, func(idx int, raw []byte) (any, error) {
 			var c wcase
 			if err := json.Unmarshal(raw, &c); err != nil {
